@@ -92,25 +92,7 @@ func runC07(t *testing.T, env core.Env, rep *core.Report) {
 					rep.DistinctNontrivial++
 					rep.Outcome("offending-header-delivered")
 				}
-				replay := map[string]any{"engine": "netwalk", "property": "C07", "scenario": sc, "events": hist, "events_str": evs(hist)}
-				bad := false
-				for _, p := range out.Containment {
-					bad = true
-					rep.Violate(core.Violation{Kind: "containment/" + sc.Engine + "/" + kindOf(p), What: fmt.Sprintf("%s: after [%s]: %s", sc.Name, evs(hist), p), Replay: replay})
-				}
-				for _, p := range out.Problems {
-					bad = true
-					rep.Violate(core.Violation{Kind: "requests/" + sc.Engine, What: fmt.Sprintf("%s: after [%s]: %s", sc.Name, evs(hist), p), Replay: replay})
-				}
-				if !out.Converged {
-					bad = true
-					kind := "no_convergence_after_misbehaviour/" + sc.Engine
-					if out.Class != "" {
-						kind = "no_convergence/" + sc.Engine + "/" + out.Class
-					}
-					rep.Violate(core.Violation{Kind: kind, What: fmt.Sprintf("%s: after [%s] the fair continuation with the honest node does not reach its chain", sc.Name, evs(hist)), Replay: replay,
-						Expected: out.WantTip, Observed: map[string]any{"tip_height": out.TipHeight, "state": out.Key, "closure": tail(out.ClosureLog, 10)}})
-				}
+				bad := judgeC07(rep, sc, hist, out)
 				if bad {
 					continue
 				}
@@ -134,6 +116,30 @@ func runC07(t *testing.T, env core.Env, rep *core.Report) {
 	mark("done")
 	_ = progress.Close()
 	_ = os.Remove(env.Out + ".progress")
+}
+
+// judgeC07 applies the C07 oracle to one execution; reports whether it violated.
+func judgeC07(rep *core.Report, sc *Scenario, hist []Event, out Outcome) bool {
+	replay := map[string]any{"engine": "netwalk", "property": "C07", "scenario": sc, "events": hist, "events_str": evs(hist)}
+	bad := false
+	for _, p := range out.Containment {
+		bad = true
+		rep.Violate(core.Violation{Kind: "containment/" + sc.Engine + "/" + kindOf(p), What: fmt.Sprintf("%s: after [%s]: %s", sc.Name, evs(hist), p), Replay: replay})
+	}
+	for _, p := range out.Problems {
+		bad = true
+		rep.Violate(core.Violation{Kind: "requests/" + sc.Engine, What: fmt.Sprintf("%s: after [%s]: %s", sc.Name, evs(hist), p), Replay: replay})
+	}
+	if !out.Converged {
+		bad = true
+		kind := "no_convergence_after_misbehaviour/" + sc.Engine
+		if out.Class != "" {
+			kind = "no_convergence/" + sc.Engine + "/" + out.Class
+		}
+		rep.Violate(core.Violation{Kind: kind, What: fmt.Sprintf("%s: after [%s] the fair continuation with the honest node does not reach its chain", sc.Name, evs(hist)), Replay: replay,
+			Expected: out.WantTip, Observed: map[string]any{"tip_height": out.TipHeight, "state": out.Key, "closure": tail(out.ClosureLog, 10)}})
+	}
+	return bad
 }
 
 func kindOf(p string) string {
